@@ -259,6 +259,7 @@ func runC02(r *core.Run) {
 		})
 
 	interleavedReadersFor(r, []string{"fastq"})
+	consumerMutatesRecords(r, []string{"fastq"})
 	bigFiles(r, "fastq", []int{0})
 
 	r.Bound("marked-offsets", markBounds+"; fields name / sequence / qualities, bytes '@' and '+'"+core.Pick(r, "", " and ' ', TAB, 0x00, 0xFF"))
